@@ -88,10 +88,13 @@ Definition chk_shape1 (p : prog) (o : iobs) : N :=
       else 0
   end%N.
 
-(* the one per-program side condition of the soundness corollary: every statement's definitions
-   can be read simultaneously (seq_ok) *)
+(* the side condition of the soundness corollary: every statement is in the syntactic class, or its
+   definitions can be read simultaneously (seq_ok evaluated here) *)
 Definition chk_guard1 (p : prog) : bool :=
-  body_guard (p_num p) (arg_env (p_args p)) (p_ret p) (p_body p).
+  body_guard2 (p_num p) (arg_env (p_args p)) (p_ret p) (p_body p).
+(* every statement in the syntactic class (then P_Texp proves the simultaneous reading: nothing is
+   evaluated per program); outside the class seq_ok is evaluated (body_guard2) *)
+Definition chk_class1 (p : prog) : bool := forallb stmt_class (p_body p).
 (* ... and the two facts the theorems derive from an injective numbering, evaluated on the
    numbering TABLE of this run: assigned symbol numbers distinct, no other binding clobbered *)
 Definition chk_hyg1 (p : prog) : bool :=
@@ -206,18 +209,15 @@ Definition chk_guard (l : list (N * (prog * iobs))) : list N :=
                      end) l.
 
 (* accepted programs: id * 10 + (1 if the numbering table fails the hygiene facts) + (2 if the
-   signature / syntax hypotheses fail) *)
+   signature hypotheses fail) + (4 if some statement is outside the syntactic class) *)
 Definition chk_side (l : list (N * (prog * iobs))) : list N :=
   flat_map (fun c => match snd (snd c) with
                      | IRaise => []
                      | IOk _ _ _ _ =>
                          let p := fst (snd c) in
-                         match negb (chk_hyg1 p), negb (chk_wf1 p) with
-                         | false, false => []
-                         | true, false => [(fst c * 10 + 1)%N]
-                         | false, true => [(fst c * 10 + 2)%N]
-                         | true, true => [(fst c * 10 + 3)%N]
-                         end
+                         let k := ((if chk_hyg1 p then 0 else 1) + (if chk_wf1 p then 0 else 2)
+                                   + (if chk_class1 p then 0 else 4))%N in
+                         match k with 0%N => [] | _ => [(fst c * 10 + k)%N] end
                      end) l.
 
 (* all codes are reported here (0 included): id * 10 + code *)
